@@ -50,6 +50,9 @@ type Result struct {
 	Log          []string       `json:"log,omitempty"`
 	Infra        string         `json:"infra,omitempty"` // harness/infrastructure problem: exit 2, never a violation
 	Summary      string         `json:"summary,omitempty"`
+	// PlanFaults, when set, are the faults of the failing sub-run (systematic sweep): the replay
+	// file is the plan with these faults.
+	PlanFaults []Fault `json:"plan_faults,omitempty"`
 }
 
 type PropDef struct {
